@@ -457,7 +457,7 @@ func genC16(r *Rand, tier, profile string) *Case {
 		p := r.Pick(passes)
 		m := ""
 		if r.Bool(0.5) {
-			m = r.Pick([]string{"ta", "tb", "_default"})
+			m = r.Pick([]string{"ta", "tb", "_default", "-"}) // "-": third field present but empty
 		}
 		if c.Knobs["auth"] == 0 {
 			m = ""
@@ -640,7 +640,7 @@ func runC16(t *testing.T, c *Case) *Outcome {
 // ---------------------------------------------------------------------------------------
 // C17 tenants
 
-var tenantCreds = map[string][2]string{"ta": {"ua", "pa"}, "tb": {"ub", "pb"}, "tc": {"uc", "pc"}}
+var tenantCreds = map[string][2]string{"ta": {"ua", "pa"}, "tb": {"ub", "pb"}, "tc": {"uc", "pc"}, "ta1": {"ud", "pd"}}
 
 func genC17(r *Rand, tier, profile string) *Case {
 	c := &Case{Profile: "tenants", Knobs: map[string]int64{}}
@@ -649,8 +649,14 @@ func genC17(r *Rand, tier, profile string) *Case {
 	gossipKnobs(r, c)
 	// mount points come from the real file credential store (3-field lines)
 	c.Knobs["auth"] = 1
-	c.Steps = append(c.Steps, Step{K: "authtab", L: []string{"ua:pa:ta", "ub:pb:tb", "uc:pc:tc", "u:p:"}})
+	c.Steps = append(c.Steps, Step{K: "authtab", L: []string{"ua:pa:ta", "ub:pb:tb", "uc:pc:tc", "ud:pd:ta1", "u:p:"}})
 	tenants := []string{"ta", "tb", "tc"}[:r.Range(2, 3)]
+	// mount points one of which is a prefix of the other, with client ids that make up the
+	// difference ("ta"+"1x" reads like "ta1"+"x"): the two fields are separate keys
+	prefixed := r.Bool(0.25)
+	if prefixed {
+		tenants = []string{"ta", "ta1"}
+	}
 	var ts []tstep
 	t := int64(1)
 	cid := 0
@@ -669,6 +675,11 @@ func genC17(r *Rand, tier, profile string) *Case {
 		for k := r.Range(1, 3); k > 0; k-- {
 			cid++
 			name := r.Pick([]string{"shared1", "shared2", fmt.Sprintf("own%d", cid)}) // ids shared across tenants on purpose
+			if prefixed && tn == "ta" {
+				name = r.Pick([]string{"1x", "11", "1-p"})
+			} else if prefixed {
+				name = r.Pick([]string{"x", "1", "-p"})
+			}
 			// within one tenant ids must be unique (that would be a takeover, C12)
 			for _, o := range cls {
 				if o.tenant == tn {
@@ -988,6 +999,22 @@ func genC18(r *Rand, tier, profile string) *Case {
 	ts = append(ts, tstep{t + 8, Step{K: "connect", C: 1, N: 0, S: "bystander", U: "u", T: "p", I: 3000}})
 	ts = append(ts, tstep{t + 12, Step{K: "sub", C: 1, L: []string{"wit/#"}, QL: []int{0}, I: 1}})
 	t += 60
+	if r.Bool(0.12) {
+		// a well-behaved client's packet arrives in two segments, split inside its length field,
+		// and between the two a new connection sends the first byte of a CONNECT - after enough
+		// short-lived connections for the broker's set-up workers to have gone round
+		for k := r.Range(15, 21); k > 0; k-- {
+			ts = append(ts, tstep{t, Step{K: "rawconnect", C: 40, N: 0}})
+			ts = append(ts, tstep{t + 2, Step{K: "close", C: 40}})
+			t += 6
+		}
+		big := encPublish("wit/x", []byte("split-"+strings.Repeat("z", 118)), 1, false, false, 77)
+		ts = append(ts, tstep{t, Step{K: "raw", C: 0, B: big[:2]}})
+		ts = append(ts, tstep{t + 3, Step{K: "rawconnect", C: 41, N: 0}})
+		ts = append(ts, tstep{t + 4, Step{K: "raw", C: 41, B: []byte{0x10}}})
+		ts = append(ts, tstep{t + 9, Step{K: "raw", C: 0, B: big[2:]}})
+		t += 300
+	}
 	nh := r.Range(1, 4)
 	wtag := 0
 	for i := 0; i < nh; i++ {
